@@ -147,6 +147,23 @@ def _spell_case(draw):
     prof = gen.profile(**BASE)
     spec = draw(gen.machine_specs(prof))
     d = D(draw)
+    # the general generator gives a state at most one `always` candidate: add a second (and third) one to half of
+    # them, so that eventless candidate LISTS exist and can be spelled through on[""], `always`, or both at once
+    grew = False
+    for sid, s in walk_states(spec):
+        if s.get("always") and d.chance(50):
+            for _ in range(d.int(1, 2)):
+                extra = {"target": copy.deepcopy(s["always"][0].get("target")), "actions": [],
+                         "guard": {"k": "const", "val": d.chance(30)}}
+                if d.chance(50):
+                    s["always"].append(extra)
+                else:
+                    s["always"].insert(0, extra)
+            grew = True
+    if grew:
+        from ..render import finalize
+
+        finalize(spec)
     # custom ids on some states
     n = 0
     for sid, s in walk_states(spec):
